@@ -167,6 +167,11 @@ def oracle(cmds, snaps):
             if got != home:
                 sig = "C05:relogin-keeps-cwd"
                 what = "after %r (%r) the working directory is %r, not the home directory %r of that user" % (c, codes, got, home)
+            elif snap["rnfr"] != "n":
+                # a pending rename belongs to the login it was accepted under (the path was resolved and
+                # permission-checked for THAT user): a re-login must not inherit it
+                sig = "C05:relogin-keeps-pending-rename"
+                what = "after %r (%r) the rename source accepted under the previous login is still pending (%s)" % (c, codes, snap["rnfr"])
         if sig is None and first == "retr" and finals == [226] and prev is not None:
             # restart offset applies only to the immediately following transfer
             pass
